@@ -194,6 +194,8 @@ def make_texts_big(rng, ids, forced, prof):
                 else:
                     t[max(0, pos - 1):max(0, pos - 1) + 1] = new
             a = forced.get(c)
+            if a is None and not t:         # only a forced text may be empty (texts are pairwise different)
+                t = big_lines(rng, [rng.choice(BOUNDARY_LENS[:15])])
             if a == 0:
                 t = []
             elif a == 1:
